@@ -51,6 +51,8 @@ def gen_plan(seed: int, tier: str) -> dict:
         listeners["L2"] = {"raises": r.random() < 0.3}
     if r.random() < 0.12:
         listeners["S"] = {"self_remove": True}
+    if r.random() < 0.15:
+        listeners["A"] = {"adds": "A2"}
     subs_pool = [(1, 10), (1, 11), (1, 12), (2, 10), (2, 11), (2, 13), (1, 15)]
     horizon = r.choice([5.0, 20.0, 60.0, 200.0])
     ops = []
